@@ -162,12 +162,9 @@ def chooseExtract (cfg : Cfg) (params : List Str) (st : Bool) (cs xs : List Str)
           let (ms, sb, pb) ← chooseLoop cfg st (MB.new params) (MB.new params) rest.dropLast
           finish (startAttrs cfg st first ++ ms) sb pb
       else do
-        let (ms, sb, pb) ← chooseLoop cfg st (MB.new params) (MB.new params) (first :: rest).dropLast
-        let last := (first :: rest).getLast?.getD first
-        -- `if not strip:` the last event is appended as it is, whatever it is
-        let sb' ← mbAppend sb last
-        let pb' ← mbAppend pb last
-        finish (ms ++ exprCode last) sb' pb'
+        -- (as repaired) used as an element: the last event is handled like the others
+        let (ms, sb, pb) ← chooseLoop cfg st (MB.new params) (MB.new params) (first :: rest)
+        finish ms sb pb
 
 /-- state of the first loop over the directives of a SUB event in `Translator.extract` -/
 structure SubLoop where
